@@ -159,8 +159,11 @@ Definition sa_ok (family : Z) (sa : option saddr) : bool :=
   | Some s => (sa_family s =? family) &&
               match s with SaLL d => wf_bytes d && (length d <=? 255)%nat | _ => true end
   end.
+(* class of the finding about interface names: a name that is not UTF-8 (legal: the kernel forbids only '/', ':',
+   white space, "", ".", "..") *)
+Definition name_utf8 (i : ifa) : bool := utf8_valid (ifa_name i).
 Definition wf_ifa (i : ifa) : bool :=
-  (0 <=? ifa_flags i) && utf8_valid (ifa_name i) &&
+  (0 <=? ifa_flags i) &&
   match ifa_addr i with
   | None => true
   | Some a => sa_ok (sa_family a) (Some a) && sa_ok (sa_family a) (ifa_mask i) && sa_ok (sa_family a) (ifa_baddr i)
